@@ -74,7 +74,7 @@ func cloneJWK(m map[string]string) map[string]string {
 }
 
 func checkC09(c *hx.Ctx) {
-	c.Rule("for each of the five key types: genuine compact JWS built independently (harness/ref) and by the library's SignPayload, headers {alg} and {alg,kid}, several payload sizes; oracle (constructive): verifies under its key; every single-byte alteration (2 bit patterns) of the decoded protected header that changes its value or breaks it, every byte of the payload, every byte of the signature, truncations/extensions/empty/swapped/zeroed r or s, and every pairing with every other key of the universe must be rejected (the ECDSA twin (r,n-s) is counted, not judged); malformed JWKs (missing/unknown kty or crv, coordinate length +-1, off-curve point, wrong Ed25519 size), headers without alg or with non-boolean b64, and structured-random compact strings must yield an error and never a panic; executed through the verif-tagged re-export of internal/jws in crash-isolated workers; non-trivial = altered or malformed input; distinct = distinct (jws, jwk) inputs")
+	c.Rule("for each of the five key types: genuine compact JWS built independently (harness/ref) and by the library's SignPayload, headers {alg}, {alg,kid} and - signed by the library - {alg[,kid],b64:true|false}, several payload sizes; oracle (constructive): verifies under its key; every single-byte alteration (2 bit patterns) of the decoded protected header that changes its value or breaks it, every byte of the payload, every byte of the signature, truncations/extensions/empty/swapped/zeroed r or s, and every pairing with every other key of the universe must be rejected (the ECDSA twin (r,n-s) is counted, not judged); malformed JWKs (missing/unknown kty or crv, coordinate length +-1, off-curve point, wrong Ed25519 size), headers without alg or with non-boolean b64, and structured-random compact strings must yield an error and never a panic; executed through the verif-tagged re-export of internal/jws in crash-isolated workers; non-trivial = altered or malformed input; distinct = distinct (jws, jwk) inputs")
 	c.Assume("Go crypto and btcec are trusted; a header edit counts as an alteration only if the header value changes or stops parsing (DESIGN Appendix B)")
 	pool := hx.NewPool(c, "jws", 16, 4*1024*1024, 30*time.Second)
 	defer pool.Close()
@@ -154,6 +154,19 @@ func checkC09(c *hx.Ctx) {
 					h, _, _ := ref.SplitJWS(lj)
 					hb, _ := ref.UnB64(h)
 					gens = append(gens, genuine{k, lj, "library", hb, pl})
+				}
+				if pi == 0 {
+					// further header sets signed by the library's own utilities: explicit b64 true / false (RFC 7797 header)
+					for _, b64 := range []bool{true, false} {
+						lj, err := verifhooks.SignPayload(pl, &extraHeaderSigner{libSigner(k, kid), map[string]interface{}{"b64": b64}})
+						if err != nil {
+							c.Violation(fmt.Sprintf("C09 library SignPayload failed for %s with header b64=%v: %v", t, b64, err), nil)
+							continue
+						}
+						h, _, _ := ref.SplitJWS(lj)
+						hb, _ := ref.UnB64(h)
+						gens = append(gens, genuine{k, lj, fmt.Sprintf("library-b64-%v", b64), hb, pl})
+					}
 				}
 			}
 		}
@@ -262,10 +275,14 @@ func checkC09(c *hx.Ctx) {
 			}
 		}
 		// direct VerifySignature on the same material
-		if !mustAccept("verifysig:"+kt, jwsCase{Kind: "verifysig", JWK: jwk, Sig: s, Msg: ref.B64([]byte(h + "." + p))}) {
+		signingInput := h + "." + p
+		if g.by == "library-b64-false" {
+			signingInput = h + "." + string(g.payload) // RFC 7797: the payload enters the signing input unencoded
+		}
+		if !mustAccept("verifysig:"+kt, jwsCase{Kind: "verifysig", JWK: jwk, Sig: s, Msg: ref.B64([]byte(signingInput))}) {
 			return
 		}
-		if !mustReject("verifysig-other-message:"+kt, jwsCase{Kind: "verifysig", JWK: jwk, Sig: s, Msg: ref.B64([]byte(h + "." + p + "x"))}) {
+		if !mustReject("verifysig-other-message:"+kt, jwsCase{Kind: "verifysig", JWK: jwk, Sig: s, Msg: ref.B64([]byte(signingInput + "x"))}) {
 			return
 		}
 		// ---- every other key
@@ -496,4 +513,25 @@ func sameJWK(a, b map[string]string) bool {
 		}
 	}
 	return true
+}
+
+// extraHeaderSigner adds protected header members to a library signer.
+type extraHeaderSigner struct {
+	inner interface {
+		Sign(data []byte) ([]byte, error)
+		Headers() jws.Headers
+	}
+	extra map[string]interface{}
+}
+
+func (s *extraHeaderSigner) Sign(data []byte) ([]byte, error) { return s.inner.Sign(data) }
+func (s *extraHeaderSigner) Headers() jws.Headers {
+	h := jws.Headers{}
+	for k, v := range s.inner.Headers() {
+		h[k] = v
+	}
+	for k, v := range s.extra {
+		h[k] = v
+	}
+	return h
 }
